@@ -84,22 +84,46 @@ REQUIRED_TAGS = ['form=integrate', 'integrate:open', 'integrate:nonopen', 'integ
                  'repind:mirror', 'repind:scale', 'analytic:circle', 'analytic:sphere', 'analytic:cylinder', 'analytic:torus',
                  'pardim=1', 'pardim=2', 'pardim=3']
 ASSUMPTIONS = [
-    'Gauss-Legendre rules enter the theorems as a hypothesis (RuleExact: exact for monomials up to degree 2m-1); it is '
-    'PROVED for m = 1, 2, 3 (ruleExact_midpoint/gauss2/gauss3, the latter two over any field with the needed square root) '
-    'and assumed for m >= 4; the executable model is run with the float nodes/weights numpy returns, as exact rationals',
-    'model<->spec theorems about Basis.integrate / Obj.center assume Basis.Valid, parameters that are exact for the tolerance '
-    '(Basis.ExactAt: a knot or at least tol away from every knot; cf. C01_evaluate_snap) and, over R, interior knot '
-    'multiplicities <= order (Basis.InteriorMultLE; the constructor does not enforce it)',
-    'Obj.center is linked to the specification by theorem for non-rational curves (non-periodic and periodic bases), '
-    'non-rational surfaces on non-periodic bases and (projective formula) rational curves; volumes, rational surfaces, '
-    'surfaces with periodic directions, and lengthData/areaData/volume/curvature/torsion/Frenet are tied to the code by the '
-    'correspondence run only',
+    'Gauss-Legendre rules enter the theorems as the hypothesis GaussRule / RuleExact (moment equations '
+    'sum w_i x_i^k = int_{-1}^{1} t^k, k <= 2m-1); exactness for all polynomials of degree <= 2m-1 is PROVED from it for every m; '
+    'existence of exact real nodes is proved for m <= 3 and assumed otherwise; the executable model is run with the float '
+    'nodes/weights numpy returns (exact rationals of the floats), which satisfy the moment equations only to rounding '
+    '(checked to 1e-14 for m <= 8 by extra_obligations of this module): the exactness theorems speak about the ideal rule',
+    'model<->spec theorems assume Basis.Valid and parameters that are exact for the tolerance (Basis.ExactAt / '
+    'Basis.Admissible: a knot or at least tol away from every knot, inside the domain; cf. C01_evaluate_snap); no assumption '
+    'on knot multiplicities',
+    'model<->spec theorems for lengthData / curvatureData / torsionData / areaData / Obj.volume cover NON-RATIONAL objects '
+    '(via C03_nonrational_*); rational objects (closed-form derivative path), frenetData, Obj.center of volumes and of '
+    'rational/periodic surfaces are tied to the code by the correspondence run only',
+    'C16_volume_exact_partial / C16_area_planar_exact_partial assume (hF) that the absolute Jacobian is, on every element, a '
+    'tensor-polynomial of the stated degrees (true for non-rational objects with a one-signed Jacobian of degree <= 2p+1; '
+    'not derived from Bpoly); C16_curvature_torsion_rotation/scaling_partial assume the rotated/scaled control net (C09)',
     'quadrature-ERROR clauses (insertion/elevation/splitting with non-polynomial integrands, convergence to analytic '
     'values) are covered by the oracle only: element-wise error budgets against a high-order float reference computed with '
     'the real derivative() (property C03), regular parametrisations only (speed/Jacobian bounded away from 0, one sign)',
 ]
 KNOWN_LABELS = ['torsion-scalar-branch-uses-acceleration', 'rational-curve-one-element-list-derivative-squeezed',
                 'integrate-periodic-collapse-single-fold']
+
+
+def extra_obligations(sp, lean_dir):
+    """Validation of the hypothesis `GaussRule` / `RuleExact` of the exactness theorems on the nodes
+    actually used: numpy's `leggauss(m)` satisfies the moment equations
+    sum_i w_i x_i^k = integral_{-1}^{1} t^k dt, k < 2m, to 1e-14 (m = 1..8), is symmetric, and has
+    all nodes strictly inside (-1, 1)."""
+    out = []
+    for m in range(1, 9):
+        x, w = np.polynomial.legendre.leggauss(m)
+        worst = 0.0
+        for k in range(2 * m):
+            exact_k = (1.0 - (-1.0) ** (k + 1)) / (k + 1)
+            worst = max(worst, abs(float(np.sum(w * x ** k)) - exact_k))
+        sym = float(np.max(np.abs(x + x[::-1])) + np.max(np.abs(w - w[::-1])))
+        inside = bool(np.all(np.abs(x) < 1.0))
+        ok = worst <= 1e-14 and sym <= 1e-15 and inside
+        out.append({'name': 'leggauss(%d) satisfies the moment equations k<%d' % (m, 2 * m), 'ok': ok,
+                    'detail': 'max moment defect %.3g, asymmetry %.3g, nodes inside (-1,1): %s' % (worst, sym, inside)})
+    return out
 
 
 def _sp():
